@@ -255,7 +255,7 @@ def coercions : List (String × String) := [("toInt", "as-modelled:toInt"),
 
 def pkgVars : List String := []
 
-def observers : List String := ["*CompareExpContext", "*ErrInvalidOperand", "*LogicalExpContext", "*NestedError", "*ParenExpContext", "*PresentExpContext", "[]float64", "[]int", "[]string", "bool", "float64", "fmt.Stringer", "int", "int32", "int64", "map[string]interface{}", "string"]
+def observers : List String := ["*CompareExpContext", "*ErrInvalidOperand", "*LogicalExpContext", "*NestedError", "*ParenExpContext", "*PresentExpContext", "[]float64", "[]int", "[]string", "bool", "float64", "fmt.Stringer", "int", "int32", "int64", "map[string]any", "string"]
 
 def goStmts : Nat := 0
 def syncUses : List String := []
